@@ -48,10 +48,15 @@ package core
 //@     invariant os.first == old(os.first) && os.n == old(os.n) && sameseq(os.decoded, old(os.decoded))
 //@     decreases os.n - i
 
+// (C04) a decode that fails leaves the stream undecoded - no partial offset table - so repeating the lookup repeats
+// the failure instead of answering from a half-read header
 //@ func (*ObjectStream) decode results (err)
-//@   property C02
+//@   property C02, C04
 //@   requires os.first >= 0 && os.n >= 0
 //@   ensures frame: os.first == old(os.first) && os.n == old(os.n)
+//@   ensures failure_leaves_no_partial_state: err && isnil(old(os.decoded)) ==> len(os.decoded) == 0
+//@   ensures failure_leaves_no_offsets: err && isnil(old(os.decoded)) ==> len(os.offsets) == 0 || sameseq(os.offsets, old(os.offsets))
+//@   ensures success_has_the_whole_table: !err && isnil(old(os.decoded)) ==> len(os.offsets) == os.n
 
 // C04: the parsed-object cache of an object stream is keyed by the INDEX inside the stream (what lookups ask for), a hit
 // returns what was stored under that index, and a parsed object is stored under the index it was asked for
